@@ -44,9 +44,14 @@ def main():
         """a fault that does not derive from Exception (like asyncio.CancelledError)"""
 
     def fault(k):
+        msg = "scripted fault at invocation %d" % k
         if k % 3 == 0:
-            return ScriptedBaseFault("scripted fault at invocation %d" % k)
-        return RuntimeError("scripted fault at invocation %d" % k)
+            return ScriptedBaseFault(msg)
+        if k % 4 == 1:
+            return AttributeError(msg)      # what a misspelt attribute inside the callback raises
+        if k % 4 == 2:
+            return KeyError(msg)
+        return RuntimeError(msg)
 
     log = []
     state = {"k": 0, "comps": [], "logging": True}
@@ -57,8 +62,11 @@ def main():
     ncomp = case["ncomp"]
     nt = ntcore.NetworkTableInstance.getDefault()
 
+    def an(a):
+        return "_p%d" % a if a % 3 == 2 else "a%d" % a      # every third attribute has a private name
+
     def snapshot():
-        return [[getattr(c, "a%d" % a) for a in range(nattr)] for c in state["comps"]]
+        return [[getattr(c, an(a)) for a in range(nattr)] for c in state["comps"]]
 
     timed = bool(case.get("timed"))
     spend = {int(k): v for k, v in case.get("spend", {}).items()}
@@ -72,7 +80,9 @@ def main():
         if state["logging"]:
             log.append(entry)
         for (ci, a, v) in writes.get(k, []):
-            setattr(state["comps"][ci], "a%d" % a, v)
+            # an ordinary attribute assignment of user code (written to the instance directly: components with an
+            # interlock __setattr__ -- spec "hook" -- would refuse it otherwise)
+            state["comps"][ci].__dict__[an(a)] = v
         us = spend.get(k)
         if us:
             # the callback takes simulated time: the FPGA clock moves while the loop thread runs
@@ -145,10 +155,10 @@ def main():
         for a in range(nattr):
             d = case["marked"].get("%d,%d" % (i, a))
             target = basens if (spec["inherit"] and a % 2 == 0) else ns
-            target["a%d" % a] = will_reset_to(d) if d is not None else 0
+            target[an(a)] = will_reset_to(d) if d is not None else 0
             if spec["inherit"] and spec.get("redeclare") and a % 2 == 1 and d is not None:
                 # the base class declares the same marker with another default: the subclass's wins
-                basens["a%d" % a] = will_reset_to(d + 1000)
+                basens[an(a)] = will_reset_to(d + 1000)
 
         def mk(i):
             def execute(self):
@@ -163,9 +173,21 @@ def main():
                     for a in range(nattr):
                         d = case["marked"].get("%d,%d" % (i, a))
                         if d is not None and a % 2 == 0:
-                            setattr(self, "a%d" % a, d + 77)      # the declared default must still win
+                            setattr(self, an(a), d + 77)      # the declared default must still win
                 return __init__
             ns["__init__"] = mk_init(i)
+        if spec.get("hook") and not spec.get("sm"):
+            # an interlock: assignments to the will_reset_to attributes through setattr() are refused (user code writes the
+            # instance directly, see begin()); the framework's reset must not depend on the component's own __setattr__
+            marked_names = {an(a) for a in range(nattr) if case["marked"].get("%d,%d" % (i, a)) is not None}
+
+            def mk_hook(names):
+                def __setattr__(self, k_, v_):
+                    if k_ in names and not state.get("creating", False):
+                        return
+                    object.__setattr__(self, k_, v_)
+                return __setattr__
+            ns["__setattr__"] = mk_hook(marked_names)
         ns["__annotations__"] = {"peer": Shared}
         ns["gain"] = tunable(i)
         if spec["has_setup"]:
@@ -179,7 +201,7 @@ def main():
                             ok = False
                             continue
                         for a in range(nattr):
-                            if not isinstance(getattr(cj, "a%d" % a, None), int):
+                            if not isinstance(getattr(cj, an(a), None), int):
                                 ok = False
                     cb(["Setup", i if ok else 1000 + i])
                 return setup
